@@ -7,5 +7,9 @@ import (
 )
 
 func TestMain(m *testing.M) {
+	// the scale classes of (c) hold up to a thousand loopback websockets (two descriptors
+	// each) open in the worker: the soft descriptor limit is lifted to the hard one, and the
+	// generator and the interpreter cut the counts to what that affords (wsx.MaxConns)
+	wsx.RaiseNoFile()
 	wsx.Main(m, map[string]wsx.Handler{"a": runA, "b": runB, "c": runC})
 }
